@@ -57,6 +57,8 @@ def read_outcomes(text):
 
 
 _st = {}
+STANDING = ('---\ntitle: standing\n---\n===STANDING===\nMETA:\n  TYPE::X\n  VERSION::"1.0"\n\u00a7CONTEXT::LOCAL\n  A::1\n\u00a72b::NAMED\n  B::"two words"\n\u00a71.5::X\n  C::3\n'
+            '\u00a710::TEN\n  T::1\nBLK:\n  D::[1,2,[K::v]]\n  E::a\u2192b\nZ::\n```\nraw ::\n```\n// note\n===END===\n')
 
 
 def tool_outcomes(text, full):
@@ -68,6 +70,10 @@ def tool_outcomes(text, full):
         _st.update(v=ValidateTool(), w=WriteTool(), e=EjectTool(), g=CompileGrammarTool(),
                    dir=tempfile.mkdtemp(prefix="c20.", dir=os.environ.get("VERIF_SCRATCH", "/var/tmp")))
     p = os.path.join(_st["dir"], "t%d.oct.md" % os.getpid())
+    # the target already holds a document with every structural kind (named / suffixed / dotted section ids, block, list, zone, comment,
+    # frontmatter): whatever the new text is, the write path has an old file to compare it with
+    with open(p, "w", encoding="utf-8") as f:
+        f.write(STANDING)
     calls = [("validate", _st["v"], dict(content=text, schema="META")),
              ("validate/fix", _st["v"], dict(content=text, schema="META", fix=True)),
              ("write/dry", _st["w"], dict(target_path=p, content=text, corrections_only=True)),
